@@ -3,7 +3,8 @@ with the patch; the repository's baseline tests still pass with the patch.  Then
 import json, os, shutil, subprocess, sys, xml.etree.ElementTree as ET
 from concurrent.futures import ThreadPoolExecutor
 
-INC = "/verif/seeded/_incoming"
+INC = sys.argv[1] if len(sys.argv) > 1 else "/var/tmp/seed2"        # where the agents left <id>_patchX.diff, _demoX.*, _metaX.json
+SV = "/var/tmp/sv"
 BASE = json.load(open("/root/.vp/BASELINE.json"))["stable_pass"]
 
 
@@ -13,7 +14,7 @@ def sh(cmd, cwd=None, env=None, timeout=2400):
 
 
 def tests(wt, tag):
-    junit = f"/tmp/sv/{tag}.xml"
+    junit = f"/var/tmp/sv/{tag}.xml"
     env = dict(os.environ, PYTHONDONTWRITEBYTECODE="1")
     env.pop("FORMAK_VERIF", None)
     rc, out = sh(f"/venv/bin/python -m pytest -ra -q -p no:cacheprovider --timeout=900 --continue-on-collection-errors --junitxml={junit}", cwd=wt, env=env)
@@ -30,16 +31,19 @@ def tests(wt, tag):
 def one(name):
     pid, tag = name.split("_patch")
     letter = tag[0]
-    wt = f"/tmp/sv/{pid}{letter}"
+    wt = f"/var/tmp/sv/{pid}{letter}"
     shutil.rmtree(wt, ignore_errors=True)
     sh(f"git -C /repo worktree prune; git -C /repo worktree add -q --detach {wt} HEAD")
-    demo = f"{INC}/{pid}_demo{letter}.py"
+    import glob
+    demos = glob.glob(f"{INC}/{pid}_demo{letter}.*")
+    demo = demos[0] if demos else f"{INC}/{pid}_demo{letter}.py"
+    runner = {"py": "/venv/bin/python", "sh": "bash"}.get(demo.rsplit(".", 1)[-1], "/venv/bin/python")
     env = dict(os.environ, PYTHONPATH=f"{wt}/py", MPLBACKEND="Agg", PYTHONDONTWRITEBYTECODE="1")
     out = {"id": f"{pid}{letter}", "property": pid}
     try:
-        rc0, o0 = sh(f"/venv/bin/python {demo} {wt}", cwd=wt, env=env)
+        rc0, o0 = sh(f"{runner} {demo} {wt}", cwd=wt, env=env)
         rca, oa = sh(f"git apply {INC}/{name}.diff", cwd=wt)
-        rc1, o1 = sh(f"/venv/bin/python {demo} {wt}", cwd=wt, env=env)
+        rc1, o1 = sh(f"{runner} {demo} {wt}", cwd=wt, env=env)
         res, line = tests(wt, f"{pid}{letter}")
         missing = [t for t in BASE if res.get(t) != "pass"]
         out.update({"demo_before_exit": rc0, "demo_before_tail": o0.strip().splitlines()[-1:] , "apply_exit": rca, "demo_after_exit": rc1,
@@ -51,14 +55,14 @@ def one(name):
 
 
 def main():
-    os.makedirs("/tmp/sv", exist_ok=True)
+    os.makedirs("/var/tmp/sv", exist_ok=True)
     names = sorted(f[:-5] for f in os.listdir(INC) if f.endswith(".diff") and "_patch" in f and "foreign" not in f)
     with ThreadPoolExecutor(max_workers=6) as ex:
         results = list(ex.map(one, names))
-    json.dump(results, open("/verif/seeded/_incoming/verify_results.json", "w"), indent=1)
+    json.dump(results, open(f"{INC}/verify_results.json", "w"), indent=1)
     for r in results:
         print(r["id"], "CONFIRMED" if r["confirmed"] else "NOT-CONFIRMED", r["demo_before_exit"], r["demo_after_exit"], r["tests_summary_with_patch"], r["baseline_tests_not_passing_with_patch"][:2])
-    shutil.rmtree("/tmp/sv", ignore_errors=True)
+    shutil.rmtree("/var/tmp/sv", ignore_errors=True)
 
 
 main()
